@@ -13,7 +13,8 @@ def c02_suites(tier):
 
 
 def c03_suites(tier):
-    return [gens.PermuteSuite(), gens.GenHistorySuite(), gens.MethodRowsSuite(), system.GateSuite(), system.SecondTouchSuite()]
+    return [gens.PermuteSuite(), gens.GenHistorySuite(), gens.MethodRowsSuite(), gens.MethodRowsSuite(with_calls=False),
+            system.GateSuite(), system.SecondTouchSuite()]
 
 
 def c04_suites(tier):
